@@ -28,7 +28,11 @@ CHECKS = {
              "(c05_addAttributes_preserves_normal, induction over the pair list); a different second value for a filled PROV formal "
              "slot is refused with ProvException leaving the record unchanged, the same value is a no-op (c05_second_value_refused, "
              "c05_same_value_noop); typed literals of native datatypes are stored as the direct value (c05_entry_path_*); set_time "
-             "and add_asserted_type (after their fix: commits) keep normal form. Tied to /repo by op-sequence correspondence over all 18 "
+             "and add_asserted_type (after their fix: commits) keep normal form. For ALL HISTORIES: c05_reachable_normal - after any sequence of the "
+             "public mutators on the heap model (document / bundle creation, add_namespace, set_default_namespace, valid_qualified_name, new_record "
+             "and everything built on it: factories, convenience methods, add_record / update / flattened, add_attributes, set_time, "
+             "add_asserted_type), starting from nothing, every record of every container is in normal form and every namespace manager "
+             "satisfies the C03 invariant (induction over the sequence; hstep_normal per operation). Tied to /repo by op-sequence correspondence over all 18 "
              "kinds x entry paths (new_record, 22 factories, 13 convenience methods) plus a direct normal-form oracle on the real records.",
         note=A_COMMON + " float() and dateutil lexical mappings are assumptions (A-LEX), sampled. The membership multi-entity compatibility "
              "path is not claimed (property text). set_time is a setter: it replaces the slot, it does not refuse.",
